@@ -32,7 +32,7 @@ EstAfter(cfg, n) ==   \* estimate reported after n OnSample calls
   ELSE IF n <= Len(cfg.script) THEN cfg.script[n] ELSE cfg.script[Len(cfg.script)]
 
 InitL(cfg) ==
-  [gauge |-> 0, nsamp |-> 0, est |-> cfg.est0, win |-> EmptyWin, rem |-> cfg.rem0, ls |-> <<>>,
+  [gauge |-> 0, nsamp |-> 0, est |-> cfg.est0, moved |-> FALSE, win |-> EmptyWin, rem |-> cfg.rem0, ls |-> <<>>,
    cnt |-> [limit |-> Max(1, cfg.est0), busy |-> 0],
    ps |-> IF Partitioned(cfg) THEN SetLimit(cfg.part, InitState(cfg.part), cfg.est0).st ELSE [limit |-> 0]]
 
@@ -73,8 +73,10 @@ ReleaseTok(cfg, s, i) ==
 Update(cfg, s, w) ==
   IF s.rem < 0 /\ Ready(cfg, w)
   THEN LET n == s.nsamp + 1
-           e == EstAfter(cfg, n)
-           s1 == [s EXCEPT !.win = EmptyWin, !.nsamp = n, !.est = e,
+           \* once its script is used up the scripted algorithm's OnSample leaves the estimate alone (like a settable
+           \* limit): the estimate is then whatever it was moved to from outside (op "ext")
+           e == IF n <= Len(cfg.script) THEN cfg.script[n] ELSE s.est
+           s1 == [s EXCEPT !.win = EmptyWin, !.nsamp = n, !.est = e, !.moved = FALSE,
                            !.rem = Min(Max(2 * w.min, cfg.minw), cfg.maxw)]
        IN [st |-> IF Partitioned(cfg) THEN [s1 EXCEPT !.ps = SetLimit(cfg.part, s.ps, e).st]
                   ELSE [s1 EXCEPT !.cnt.limit = Max(1, e)],
@@ -101,6 +103,10 @@ ApplyL(cfg, s, op) ==
                                           !.ls = [j \in 1..Len(s.ls) |-> [s.ls[j] EXCEPT !.age = @ + op.d]]],
                          res |-> [ok |-> TRUE, samples |-> <<>>, inflight |-> -1]]
     [] op.op = "comp" -> Complete(cfg, s, op.i, op.outcome)
+    \* the algorithm's estimate moves without a sample of this limiter (an explicit set, a limit shared with another
+    \* limiter): nothing is enforced yet - the next sample-driven update must pick it up (C05)
+    [] op.op = "ext" -> [st |-> [s EXCEPT !.est = op.v, !.moved = TRUE],
+                         res |-> [ok |-> TRUE, samples |-> <<>>, inflight |-> -1]]
 
 EnabledL(cfg, s, op) ==
   IF op.op = "comp" THEN op.i \in 1..Len(s.ls) ELSE TRUE
@@ -116,7 +122,7 @@ ObsL(cfg, s) ==
 Outstanding(s) == Len(s.ls)
 InvConserve(cfg, s) == s.gauge = Outstanding(s) /\ StratBusy(cfg, s) = Outstanding(s)
 InvEnforce(cfg, s) ==
-  /\ StratLimit(cfg, s) = Max(1, s.est)
+  /\ ~s.moved => StratLimit(cfg, s) = Max(1, s.est)
   /\ Partitioned(cfg) => SharesCurrent(cfg.part, s.ps)
 InvWindow(cfg, s) == s.win.count > 0 => s.win.min # Inf
 =================================================================================
